@@ -6,6 +6,7 @@
 
 mod campaign;
 mod clocksim;
+mod compsim;
 mod histsim;
 mod host;
 mod known;
@@ -176,6 +177,7 @@ fn replay_doc(doc: &Value) -> (Option<(String, String)>, u64) {
         }
         "histsim" => histsim::replay(doc),
         "modsim" => modsim::replay(doc),
+        "compsim" => compsim::replay(doc),
         other => {
             eprintln!("unknown engine in replay file (or not built into this binary): {other}");
             std::process::exit(2);
@@ -186,13 +188,15 @@ fn replay_doc(doc: &Value) -> (Option<(String, String)>, u64) {
 /// Open known findings of an engine: each stored scenario is replayed; while it still violates
 /// with the recorded class the check prints a KNOWN-FINDING line (and exits 0 as far as this
 /// finding is concerned). Nothing is printed once it no longer violates.
-fn report_known_findings(engine: &str, property: &str, known: &known::KnownFindings) {
+fn report_known_findings(engine: &str, property: &str, known: &known::KnownFindings, known_path: &str) {
     for f in known.open_for(engine) {
         if f.property != property {
             continue;
         }
         let Some(replay) = &f.replay else { continue };
-        let path = format!("/verif/{replay}");
+        // replay paths in the known-findings file are relative to the directory that holds it
+        let base = std::path::Path::new(known_path).parent().unwrap_or(std::path::Path::new("/verif"));
+        let path = base.join(replay).to_string_lossy().to_string();
         let Ok(text) = std::fs::read_to_string(&path) else {
             println!("HARNESS-ERROR known finding {} has no readable replay file {path}", f.id);
             std::process::exit(2);
@@ -270,11 +274,18 @@ fn main() {
 
     match args.engine.as_str() {
         "unwindsim" => {
-            let prop: &'static str = if args.rest.iter().any(|a| a == "C12") { "C12" } else { "C04" };
+            let prop: &'static str = if args.rest.iter().any(|a| a == "C12") {
+                "C12"
+            } else if args.rest.iter().any(|a| a == "C05") {
+                "C05"
+            } else {
+                "C04"
+            };
             let cfg = CampaignConfig {
                 engine: "unwindsim",
                 property: prop,
-                base_seed: args.seed,
+                // C05 looks at other programs than the C04/C12 campaigns of the same VERIF_SEED
+                base_seed: if prop == "C05" { args.seed ^ 0x5EED_0C05 } else { args.seed },
                 runs: args.runs.unwrap_or(if quick { 20_000 } else { 600_000 }),
                 max_seconds: args.seconds.unwrap_or(if quick { 60.0 } else { 900.0 }),
                 threads: args.threads,
@@ -283,7 +294,7 @@ fn main() {
                 digest_file: args.digests.clone(),
                 replay_dir: args.replay_dir.clone(),
             };
-            report_known_findings("unwindsim", prop, &known);
+            report_known_findings("unwindsim", prop, &known, &args.known);
             let (regress_n, regress_v) = run_regressions("unwindsim", prop, &args.regress_dir);
             let mut res = campaign::run_campaign(&cfg, |_t| {
                 Box::new(unwindsim::UnwindWorker::new(known.clone(), prop)) as Box<dyn Worker>
@@ -336,7 +347,7 @@ fn main() {
                 digest_file: args.digests.clone(),
                 replay_dir: args.replay_dir.clone(),
             };
-            report_known_findings("modsim", "C18", &known);
+            report_known_findings("modsim", "C18", &known, &args.known);
             let (regress_n, regress_v) = run_regressions("modsim", "C18", &args.regress_dir);
             let mut res = campaign::run_campaign(&cfg, |_t| {
                 Box::new(modsim::ModWorker::new(known.clone())) as Box<dyn Worker>
@@ -355,6 +366,62 @@ fn main() {
                 vec![
                     "the reference model is the documented contract: resolution order, run-once, cycle errors, rollback, re-import after failure, clear_module_cache => recompile and re-run".into(),
                     "healing by rewriting a file whose chunk is already in the loader takes effect after clear_module_cache (documented); the generator never breaks a file after it was loaded".into(),
+                ],
+                extra,
+            );
+            finish(&cfg, &res, ev, &args.evidence);
+        }
+        "compsim-show" => {
+            compsim::show(
+                args.rest[0].parse().expect("run seed"),
+                args.rest.get(1).and_then(|s| s.parse().ok()).unwrap_or(u64::MAX),
+            );
+        }
+        "compsim" => {
+            if !compsim::seam_alive() {
+                println!("HARNESS-ERROR engine=compsim the hash seam (hook H4) does not change iteration order: nothing can be decided");
+                std::process::exit(2);
+            }
+            let corpus = std::sync::Arc::new(compsim::load_corpus());
+            if corpus.len() < 50 {
+                println!("HARNESS-ERROR engine=compsim only {} corpus programs found under {}", corpus.len(), compsim::repo_dir());
+                std::process::exit(2);
+            }
+            let cfg = CampaignConfig {
+                engine: "compsim",
+                property: "C05",
+                base_seed: args.seed,
+                runs: args.runs.unwrap_or(if quick { 300_000 } else { 20_000_000 }),
+                max_seconds: args.seconds.unwrap_or(if quick { 60.0 } else { 600.0 }),
+                threads: args.threads,
+                keep_going: args.keep_going,
+                strict: args.strict,
+                digest_file: args.digests.clone(),
+                replay_dir: args.replay_dir.clone(),
+            };
+            report_known_findings("compsim", "C05", &known, &args.known);
+            let (regress_n, regress_v) = run_regressions("compsim", "C05", &args.regress_dir);
+            let corpus_n = corpus.len();
+            let mut res = campaign::run_campaign(&cfg, |_t| {
+                Box::new(compsim::CompWorker::new(corpus.clone())) as Box<dyn Worker>
+            });
+            res.violations.extend(regress_v);
+            let mut extra = Map::new();
+            extra.insert("regression_replays".into(), json!(regress_n));
+            extra.insert("corpus_programs".into(), json!(corpus_n));
+            let ev = campaign::evidence_part(
+                &cfg,
+                &res,
+                &args.tier,
+                "exploration",
+                "one run = one program text (every .koto file and every ```koto block of the repository, plain and wrapped into a function, in the first runs of every campaign; then generated nests of functions with free variables, defaults, generators, maps, matches, try blocks, imports and exports; SimLang programs; pairs of corpus programs) compiled with seeded compiler settings under 4-8 simulator-chosen hash seeds (hook H4: the RandomState of every hash set / map of parser and compiler); every compilation must give the same chunk (bytes, constant pool, source map) or the same error; evaluations = compilations; non-trivial = the program compiled and has a function with at least two non-local accesses (a set whose order can reach the output); distinct = distinct (source kind, functions, multi-capture functions, largest capture set) profiles",
+                "compilations",
+                json!({
+                    "real": ["koto lexer", "koto parser", "koto bytecode compiler (Compiler::compile)"],
+                    "stub": ["hash randomness: SimHashState with simulator-chosen keys instead of std RandomState (hook H4)"]
+                }),
+                vec![
+                    "only the determinism clause of C05 is decided here; the structural well-formedness clauses are a pure function of the program and are not claimed (internal faults met while the other engines execute generated code under fault injection are reported there)".into(),
                 ],
                 extra,
             );
@@ -403,7 +470,7 @@ fn main() {
                 digest_file: args.digests.clone(),
                 replay_dir: args.replay_dir.clone(),
             };
-            report_known_findings("histsim", "C07", &known);
+            report_known_findings("histsim", "C07", &known, &args.known);
             let (regress_n, regress_v) = run_regressions("histsim", "C07", &args.regress_dir);
             let mut res = campaign::run_campaign(&cfg, |_t| {
                 Box::new(histsim::HistWorker::new(known.clone())) as Box<dyn Worker>
@@ -446,7 +513,7 @@ fn main() {
                 digest_file: args.digests.clone(),
                 replay_dir: args.replay_dir.clone(),
             };
-            report_known_findings("clocksim", "C08", &known);
+            report_known_findings("clocksim", "C08", &known, &args.known);
             let (regress_n, regress_v) = run_regressions("clocksim", "C08", &args.regress_dir);
             let mut res = campaign::run_campaign(&cfg, |_t| {
                 Box::new(clocksim::ClockWorker::new(known.clone())) as Box<dyn Worker>
@@ -493,7 +560,7 @@ fn main() {
                     std::process::exit(2);
                 }
             };
-            report_known_findings("locksim", "C19", &known);
+            report_known_findings("locksim", "C19", &known, &args.known);
             let (regress_n, regress_v) = run_regressions("locksim", "C19", &args.regress_dir);
             let mut res = campaign::run_campaign(&cfg, |_t| {
                 Box::new(locksim::LockWorker::new(known.clone())) as Box<dyn Worker>
